@@ -69,7 +69,7 @@ def run_writer(directory: str, scn: dict, dest_name: str = 'dest.bin') -> str:
     sub = os.path.join(directory, 'newdir', 'deep') if scn.get('missing_parent') else directory
     dest = os.path.join(sub, dest_name)
     dest_arg: Any = pathlib.Path(dest) if len(scn['writes']) % 2 else dest  # str and os.PathLike are both documented
-    writer = AtomicWriter(dest_arg, is_bytes=True) if scn['is_bytes'] else AtomicWriter(dest_arg, is_bytes=False, encoding='latin1')
+    writer = AtomicWriter(dest_arg, is_bytes=True) if scn['is_bytes'] else AtomicWriter(dest_arg, is_bytes=False, encoding=scn.get('encoding', 'latin1'))
     try:
         if scn.get('reenter'):
             # "can be repeated": a first complete cycle with the same writer object (it commits the OLD bytes again,
@@ -192,6 +192,8 @@ def scenarios(thorough: bool) -> List[dict]:
     out.append({'is_bytes': True, 'writes': [9000, 20000], 'dest_mode': 0o444})
     out.append({'is_bytes': False, 'writes': [70000], 'dest_mode': 0o444, 'raise_at': 1})
     out.append({'is_bytes': True, 'writes': [5], 'dest_mode': 0o400, 'flush_after': [0]})
+    # a text writer whose encoding name is unknown: the failure happens in __enter__, after open() has created the file
+    out.append({'is_bytes': False, 'writes': [5], 'encoding': 'no-such-encoding', 'no_faults': True})
     out.append({'is_bytes': True, 'writes': [12000, 5], 'reenter': True})
     out.append({'is_bytes': False, 'writes': [12000, 5], 'reenter': True, 'raise_at': 1})
     # restarted attempts and an exit without enter: judged without injected faults and under crashes only (an injected
@@ -390,6 +392,18 @@ def interleavings(run, thorough: bool) -> None:
                     for pair in ([names] if names else name_pairs):
                         two_writers(run, scn_a, scn_b, i, j, first, label, pair)
     run.extra['interleaving_grid'] = [na, [len(record_cache(v[0])) for v in variants]]
+    # a writer object that is used a second time ("can be repeated") while another writer is at work in the same directory:
+    # whatever the first cycle left in the object must not reach the other writer's temporary file
+    scn_r = {'is_bytes': True, 'writes': [6000, 3000], 'reenter': True}
+    scn_b = {'is_bytes': True, 'writes': [7000, 9000]}
+    nr, nb = len(record_cache(scn_r)), len(record_cache(scn_b))
+    for i in range(nr):
+        for j in range(nb):
+            if not thorough and (i * 29 + j * 13 + run.seed) % 3:
+                continue
+            for first in ('A', 'B'):
+                two_writers(run, scn_r, scn_b, i, j, first, 'A is a reused writer', name_pairs[(i + j) % len(name_pairs)])
+                run.count('interleavings_with_a_reused_writer')
 
 
 def two_writers(run, scn_a: dict, scn_b: dict, i: int, j: int, first: str, label: str, names=('a.bin', 'b.bin')) -> None:
@@ -655,7 +669,7 @@ def main(run, shard=(0, 1)) -> None:
     run.exhaustive = False
     probe.report(run)
     probe.check_reached(run)
-    run.require('boundaries_enumerated', 'crash_runs', 'fault_runs', 'directory_inspections', 'interleavings_run', 'bsp_crash_runs', 'bsp_save_boundaries', 'abandon_runs', 'non_oserror_injections')
+    run.require('boundaries_enumerated', 'crash_runs', 'fault_runs', 'directory_inspections', 'interleavings_run', 'bsp_crash_runs', 'bsp_save_boundaries', 'abandon_runs', 'non_oserror_injections', 'interleavings_with_a_reused_writer')
 
 
 def replay(run, data) -> None:
